@@ -129,7 +129,10 @@ def source(spec):
       if sb["dims"] and sb.get("cls_list"):
         body.append("s.%s = [%s]" % (sb["name"], ", ".join("%s_%s()" % (cn, uid) for cn in sb["cls_list"])))
       elif sb["dims"]:
-        body.append("s.%s = [%s_%s() for _ in range(%d)]" % (sb["name"], sb["cls"], uid, sb["dims"][0]))
+        inner = "%s_%s()" % (sb["cls"], uid)
+        for d in reversed(sb["dims"]):
+          inner = "[%s for _ in range(%d)]" % (inner, d)
+        body.append("s.%s = %s" % (sb["name"], inner))
       else:
         body.append("s.%s = %s_%s()" % (sb["name"], sb["cls"], uid))
     for fr in cd.get("frees", []):
